@@ -1,5 +1,7 @@
 //! `vcheck <ID> [--tier quick|thorough] [--replay path]`
 
+use super::bb_graph::*;
+use super::prop::*;
 use super::report::*;
 use super::sim::SimParams;
 use super::sim_oracles::*;
@@ -134,8 +136,9 @@ fn sim_replays(ctx: &Ctx, report: &mut Report, oracle: Oracle) -> u64 {
 
 fn c04(ctx: &Ctx) -> i32 {
     let mut report = Report::new(ctx, "exploration");
-    report.assume("SIM: handlers of the actors run to their next await atomically; queue capacities are not exercised (relay channel unbounded in SIM) - covered by BB-large");
-    let n = sim_replays(ctx, &mut report, oracle_c04);
+    report.assume("SIM: handlers of the actors run to their next await atomically; queue capacities are not exercised there (relay channel unbounded in SIM) - covered by BB-large");
+    report.assume("BB: a one-shot zinoma whose scripts are all ':' is deadlocked when it has no live child, every thread sleeps and its CPU time does not advance over 3 consecutive 0.5 s samples; still busy at the budget = inconclusive");
+    let n = sim_replays(ctx, &mut report, oracle_c04) + bb_replays(ctx, &mut report);
     let params = SimParams {
         max_n: ctx.tier.pick(8, 14),
         watch: 0,
@@ -147,14 +150,62 @@ fn c04(ctx: &Ctx) -> i32 {
     };
     let rule = "generated acyclic graph x requested subset x schedule (one-shot, every script succeeds); deadlock oracle at final quiescence; non-trivial = some Requested message reached a build/service target after it had already finished (late requester); distinct = graph-shape classes x number of late requests x closure size";
     if ctx.replay.is_none() {
-        let (mut part, failures) = run_sim(ctx, params, ctx.tier.pick(4000, 100_000), oracle_c04, rule, 4);
+        let (mut part, failures) = run_sim(ctx, params, ctx.tier.pick(40_000, 1_000_000), oracle_c04, rule, 4);
         part.extra.insert("regression_replays".into(), serde_json::json!(n));
+        report.add(part);
+        for f in failures {
+            report.fail(f);
+        }
+        // BB-large: real binary, queue pressure
+        let pr = PropRun {
+            ctx,
+            engine: "BB-large",
+            rule: "shape family {chain, fan-in, fan-out, k-ary tree, layered DAG, many roots} x size log-uniform in 2..=2000 (quick: ..=1000), trivial scripts, real binary; exit 0 and exactly one start/finish per closure target; hang = quiescence rule; non-trivial = >= 33 dependents/dependencies on one node (more than half a queue), or depth >= 50, or >= 33 roots; distinct = shape x floor(log2 size)",
+            total_cases: ctx.tier.pick(64, 600),
+            threads: ctx.tier.pick(8, 12).min(ctx.threads),
+            max_shrink_iters: 12,
+            stream: 104,
+        };
+        let max_size = ctx.tier.pick(1000, 2000);
+        let (part, failures) = run_prop(&pr, || large_case(max_size), eval_large);
         report.add(part);
         for f in failures {
             report.fail(f);
         }
     }
     report.finish()
+}
+
+fn bb_replays(ctx: &Ctx, report: &mut Report) -> u64 {
+    let mut n = 0;
+    for path in replay_files(ctx) {
+        let v = match read_replay(&path) {
+            Ok(v) => v,
+            Err(e) => {
+                report.infra_errors.push(e);
+                continue;
+            }
+        };
+        let r = &v["replay"];
+        if r["engine"] == "BB-large" {
+            let c = LargeCase {
+                shape: r["shape"].as_u64().unwrap_or(0) as u8,
+                size: r["size"].as_u64().unwrap_or(2) as usize,
+                extra: r["extra"].as_u64().unwrap_or(0) as u8,
+            };
+            n += 1;
+            let res = eval_large(&c);
+            if let Some(msg) = res.violation {
+                println!("  replay {} still fails: {}", path.display(), msg);
+                report.fail(Failure {
+                    message: msg,
+                    signature: res.signature.unwrap_or_default(),
+                    replay: res.replay,
+                });
+            }
+        }
+    }
+    n
 }
 
 fn c08(ctx: &Ctx) -> i32 {
